@@ -70,6 +70,10 @@ def project(a, batch_moduli=()):
         continue
       if field == 'nf' and a.meta.get('p') and a.meta.get('q'):
         out['nf_is_pq'] = set(fl) == {a.meta['p'], a.meta['q']}
+      elif field == 'nf' and len(fl) == 2 and a.meta.get('primes_unknown'):
+        # the harness does not own the primes (fixture modulus): both primes are recorded iff the two values are primes with product n
+        import gmpy2 as _g
+        out['nf_is_pq'] = bool(fl[0] * fl[1] == n and _g.is_prime(fl[0]) and _g.is_prime(fl[1]))
       for f in fl:
         i = a.fid((field, f))
         target = n if field == 'nf' else n - 1
